@@ -688,6 +688,16 @@ func (c *wsConn) setToken(token json.RawMessage, tid string) {
 }
 
 func (c *wsConn) Access(s *Subscription, cb func(*rescache.Access)) {
+	// No access request is made for a connection that has been disposed. It
+	// may be asked for by a function queued before the connection closed.
+	c.mu.Lock()
+	disposing := c.disposing
+	c.mu.Unlock()
+	if disposing {
+		cb(&rescache.Access{Error: reserr.ErrDisposing})
+		return
+	}
+
 	c.serv.cache.Access(s, c.token, false, func(access *rescache.Access, _ *codec.Meta) {
 		cb(access)
 	})
